@@ -771,6 +771,156 @@ static void doHelpArg(const vj::Value& cfg, const vj::Value& act) {
       .boolean("unknown", err.find("is unknown") != std::string::npos).emit();
 }
 
+// X01: argument summary (Handler::printSummary / Groups::printSummary).  Builds the handler(s) from cfg, evaluates argv
+// (unless "evaluate" is false) and then calls printSummary once per element of "calls" ({"type":b,"key":b,"ovl":"set"|"os"|"cout"}:
+// printSummary( contents_set, os) / printSummary( os) / printSummary( contents_set) with std::cout redirected).  Every printed
+// summary is projected onto its lines: kinds = per line "t" (not indented and not an entry: a title), "e" (an entry) or "o"
+// (anything else); entries = per entry line the variable name, the value text, the type text (split off only when the type was
+// requested), the key text and the prefix in front of the key (sub-group arguments).  Nothing is compared here.
+static std::string summaryJson(const std::string& text, bool typeRequested) {
+   std::string kinds = "[", entries = "[", others = "[";
+   bool fk = true, fe = true, fo = true;
+   std::istringstream is(text);
+   std::string ln;
+   const std::string head = "   Value <", mid = "> set on variable '", by = " by argument '";
+   while (std::getline(is, ln)) {
+      char kind = 'o';
+      std::string var, val, type, key, prefix;
+      bool haskey = false;
+      const size_t p = ln.rfind(mid);
+      if (ln.compare(0, head.size(), head) == 0 && p != std::string::npos && p >= head.size()) {
+         const std::string inner = ln.substr(head.size(), p - head.size());
+         const std::string rest = ln.substr(p + mid.size());
+         const size_t q = rest.find('\'');
+         if (q != std::string::npos) {
+            var = rest.substr(0, q);
+            const std::string tail = rest.substr(q + 1);
+            bool ok = false;
+            if (tail == ".") ok = true;
+            else if (tail.size() >= by.size() + 2 && tail.compare(0, by.size(), by) == 0 && tail.compare(tail.size() - 2, 2, "'.") == 0) {
+               ok = true; haskey = true;
+               key = tail.substr(by.size(), tail.size() - by.size() - 2);
+               const size_t s = key.find("'/'");
+               if (s != std::string::npos) { prefix = key.substr(0, s); key = key.substr(s + 3); }
+            }
+            if (ok) {
+               kind = 'e';
+               val = inner;
+               if (typeRequested && !inner.empty() && inner.back() == ']') {
+                  int depth = 0;
+                  for (size_t k = inner.size(); k-- > 0;) {
+                     if (inner[k] == ']') ++depth;
+                     else if (inner[k] == '[' && --depth == 0) {
+                        if (k >= 1 && inner[k - 1] == ' ') { type = inner.substr(k + 1, inner.size() - k - 2); val = inner.substr(0, k - 1); }
+                        break;
+                     }
+                  }
+               }
+            }
+         }
+      }
+      if (kind != 'e' && !ln.empty() && ln[0] != ' ') kind = 't';
+      if (!fk) kinds += ','; fk = false;
+      kinds += std::string("\"") + kind + "\"";
+      if (kind == 'e') {
+         if (!fe) entries += ','; fe = false;
+         entries += "{\"var\":" + codes(var) + ",\"val\":" + codes(val) + ",\"type\":" + codes(type) + ",\"key\":" + codes(key)
+            + ",\"prefix\":" + codes(prefix) + ",\"haskey\":" + (haskey ? "true" : "false") + "}";
+      } else {
+         if (!fo) others += ','; fo = false;
+         others += codes(ln);
+      }
+   }
+   return "{\"kinds\":" + kinds + "],\"entries\":" + entries + "],\"others\":" + others + "]}";
+}
+static void doSummary(const vj::Value& cfg, const vj::Value& act) {
+   using celma::prog_args::SummaryOptions;
+   using celma::prog_args::sumoptset_t;
+   const std::string mode = act["mode"].kind == vj::Value::Str ? act["mode"].str() : "handler";
+   const std::string presrc = act["presrc"].kind == vj::Value::Str ? act["presrc"].str() : "none";
+   const std::string prog = "prog";
+   const bool grouped = mode == "groups";
+   const bool evaluate = act["evaluate"].boolean(true);
+   std::string out = evaluate ? "ok" : "none", what, dest = "[]", aux = "[]", sums = "[";
+   int extra = 0;
+   std::string paFile, envName;
+   if (evaluate && (presrc == "file" || presrc == "both")) {
+      extra |= Handler::hfReadProgArg;
+      mkdir((gScratch + "/.progargs").c_str(), 0700);
+      paFile = gScratch + "/.progargs/" + prog + ".pa";
+      std::ofstream f(paFile, std::ios::binary | std::ios::trunc);
+      f << act["filetext"].bytes();
+      f.close();
+      setenv("HOME", gScratch.c_str(), 1);
+   }
+   if (evaluate && (presrc == "env" || presrc == "both")) {
+      extra |= Handler::hfEnvVarArgs;
+      envName = "PROG";
+      setenv(envName.c_str(), act["envstr"].bytes().c_str(), 1);
+   }
+   std::unique_ptr<Built> b;
+   try {
+      b = build(cfg, grouped, extra);
+      if (b->setupFailed) { out = "setup"; what = b->setupWhat; }
+   } catch (const std::exception& e) { out = "setup"; what = e.what(); }
+   std::string presums = "[";
+   auto printAll = [&](const vj::Value& calls, std::string& sumsOut) {
+      for (size_t k = 0; k < calls.size(); ++k) {
+         const bool wt = calls[k]["type"].boolean(), wk = calls[k]["key"].boolean();
+         const std::string ovl = calls[k]["ovl"].kind == vj::Value::Str ? calls[k]["ovl"].str() : "set";
+         sumoptset_t set;
+         if (wt) set |= SummaryOptions::with_type;
+         if (wk) set |= SummaryOptions::with_key;
+         std::ostringstream oss;
+         std::string res = "ok";
+         try {
+            if (ovl == "os") {
+               if (grouped) Groups::instance().printSummary(oss); else b->single->printSummary(oss);
+            } else if (ovl == "cout") {
+               std::streambuf* old = std::cout.rdbuf(oss.rdbuf());
+               try { if (grouped) Groups::instance().printSummary(set); else b->single->printSummary(set); }
+               catch (...) { std::cout.rdbuf(old); throw; }
+               std::cout.flush();
+               std::cout.rdbuf(old);
+            } else {
+               if (grouped) Groups::instance().printSummary(set, oss); else b->single->printSummary(set, oss);
+            }
+         } catch (const std::exception& e) { res = "err"; what = e.what(); }
+         if (k) sumsOut += ',';
+         const std::string pj = summaryJson(oss.str(), wt && ovl != "os");
+         sumsOut += "{\"type\":" + std::string(wt ? "true" : "false") + ",\"key\":" + (wk ? "true" : "false") + ",\"ovl\":\"" + ovl
+            + "\",\"res\":\"" + res + "\"," + pj.substr(1);
+      }
+   };
+   if (out != "setup") printAll(act["precalls"], presums);      // printSummary() before evalArguments()
+   presums += "]";
+   if (out != "setup") {
+      if (evaluate) {
+         const std::vector<std::string> words = wordsOf(act["argv"]);
+         try {
+            Argv av(prog, words);
+            if (grouped) Groups::instance().evalArguments(av.argc, av.arr.get());
+            else b->single->evalArguments(av.argc, av.arr.get());
+         } catch (const std::exception& e) { out = "err"; what = e.what(); }
+         catch (...) { out = "nonstd"; }
+      }
+      dest = b->destJson();
+      aux = b->auxJson();
+      printAll(act["calls"], sums);
+   }
+   sums += "]";
+   if (!paFile.empty()) unlink(paFile.c_str());
+   if (!envName.empty()) unsetenv(envName.c_str());
+   vj::Line().str("e", "Summary").str("mode", mode).boolean("evaluate", evaluate).str("presrc", presrc)
+      .raw("filetext", act["filetext"].kind == vj::Value::Arr ? dump(act["filetext"]) : "[]")
+      .raw("envstr", act["envstr"].kind == vj::Value::Arr ? dump(act["envstr"]) : "[]")
+      .raw("argv", act["argv"].kind == vj::Value::Arr ? dump(act["argv"]) : "[]")
+      .str("out", out).raw("dest", dest).raw("aux", aux).raw("presums", presums).raw("sums", sums)
+      .raw("tag", act["tag"].kind == vj::Value::Obj ? dump(act["tag"]) : "{\"k\":\"none\"}").str("what", what).emit();
+   b.reset();
+   if (grouped) teardownGroups();
+}
+
 static void doSplit(const vj::Value& act) {
    const std::string cmd = act["cmd"].bytes();
    const bool withProg = act["prog"].kind == vj::Value::Arr;
@@ -879,6 +1029,7 @@ int main(int argc, char** argv) {
       else if (name == "Split") doSplit(act);
       else if (name == "Usage") doUsage(cfg, act);
       else if (name == "HelpArg") doHelpArg(cfg, act);
+      else if (name == "Summary") doSummary(cfg, act);
    }
    fclose(f);
    std::string rm = "rm -rf '" + gScratch + "'";
